@@ -737,6 +737,15 @@ func (w *walker) bindAndWalk(fn *AV, args []*AV, at ast.Node, fr frame) {
 	if c, ok := at.(*ast.CallExpr); ok {
 		fr.stack = append(append([]*ast.CallExpr{}, fr.stack...), c)
 	}
+	// `go helper(args)` / `defer helper(args)`: the call that binds the helper's parameters
+	if fn.Decl != nil {
+		switch g := at.(type) {
+		case *ast.GoStmt:
+			fr.stack = append(append([]*ast.CallExpr{}, fr.stack...), g.Call)
+		case *ast.DeferStmt:
+			fr.stack = append(append([]*ast.CallExpr{}, fr.stack...), g.Call)
+		}
+	}
 	if fn.Decl != nil {
 		fr.via = append(append([]string{}, fr.via...), name)
 	}
